@@ -7,15 +7,16 @@ SPEC = dict(
                "set with enhancement on must contain the set with it off (<= 10 content words), and every entry containing one of the first four "
                "content words (reference tokenizer + exhaustive scan) must be a candidate with enhancement on and off, for every term cap. "
                "One query in seven is a chatty request of 120-3000 bytes (few content words spread over stop-word filler, one at the very end); one in nine "
-               "is built from the string constants of the tree under test. The analysis result is checked directly: expanded list begins with the keywords element for element, no duplicates, user's order, repeatable.",
+               "is built from the string constants of the tree under test. The analysis result is checked directly (and, for thousands of the texts, "
+               "against a fresh process that analyses them in the opposite order): expanded list begins with the keywords element for element, no duplicates, user's order, repeatable.",
     level_note="Trusted: reference tokenizer/scan shared with C03; candidate tests run at Limit = N+1 so the re-rank window cannot truncate.",
     engines=[dict(name="nlpsubset", shards=T(16, 16), timeout=T(900, 3600)),
              dict(name="nlpanalysis", shards=T(16, 16), timeout=T(900, 3600))],
     rule="case = (database, query, term cap, platform switch) evaluated with NLP off and on; non-trivial = the NLP-off answer is non-empty, distinct by "
          "(db, query, cap, platforms). Analysis cases: distinct query texts whose expansion added terms beyond the keywords.",
-    floors=T({"chatty-queries-over-512-bytes": 150, "dictionary-queries": 300, "subset-checked": 2000, "first4-checked": 3000, "len7-8": 300, "len9-10": 300, "len>10": 300, "nlp-added-candidates": 500,
+    floors=T({"analysis-compared-with-a-fresh-process": 5000, "chatty-queries-over-512-bytes": 150, "dictionary-queries": 300, "subset-checked": 2000, "first4-checked": 3000, "len7-8": 300, "len9-10": 300, "len>10": 300, "nlp-added-candidates": 500,
               "analysis-with-expansion": 5000, "analysis-revisited": 3000, "distinct_nontrivial": 5000},
-             {"chatty-queries-over-512-bytes": 5000, "dictionary-queries": 10000, "subset-checked": 30000, "first4-checked": 30000, "len7-8": 3000, "len9-10": 3000, "len>10": 3000, "nlp-added-candidates": 5000,
+             {"analysis-compared-with-a-fresh-process": 50000, "chatty-queries-over-512-bytes": 5000, "dictionary-queries": 10000, "subset-checked": 30000, "first4-checked": 30000, "len7-8": 3000, "len9-10": 3000, "len>10": 3000, "nlp-added-candidates": 5000,
               "analysis-with-expansion": 50000, "analysis-revisited": 30000, "distinct_nontrivial": 50000}),
     assumptions=["'content words' = tokens of the reference tokenizer, counted with repeats",
                  "elements of Keywords that are the first synonym (GetSynonyms) of a word of the text are injected terms and exempt from the order check"],
